@@ -122,13 +122,21 @@ func (h *c17Hist) genTask(ch c17Chan, m c17Meta) c17Task {
 		return t
 	}
 	t.Kind = metadb.ChannelMigrationKindReplicaReplace
-	t.SourceNode = m.Replicas[rng.IntN(len(m.Replicas))]
-	if t.SourceNode == m.Leader && rng.IntN(100) < 80 {
+	// 35 %: replace the replica that currently leads the channel – the executor
+	// path with an EMBEDDED leader transfer before the learner is added.
+	if len(others) > 0 && rng.IntN(100) < 35 {
+		t.SourceNode = m.Leader
+	} else {
+		var cand []uint64
 		for _, n := range m.Replicas {
 			if n != m.Leader {
-				t.SourceNode = n
+				cand = append(cand, n)
 			}
 		}
+		if len(cand) == 0 {
+			cand = m.Replicas
+		}
+		t.SourceNode = cand[rng.IntN(len(cand))]
 	}
 	t.TargetNode = c17OtherNode(rng, m.Replicas)
 	return t
